@@ -471,3 +471,90 @@ func c17OpenOptions(x *mc.Cell) {
 func init() {
 	mc.Register("C17", "open-options-matrix", "both", c17OpenOptions)
 }
+
+// c17HeldSubscriber: a subscriber is slow - it is still busy with one notification while two further events are
+// applied to the channel, then it catches up. Differential oracle: the sequence of (event, snapshot) pairs it
+// receives is exactly the sequence it receives when it is fast (every snapshot reflects the state resulting from
+// *its* event, not a later one). All ordered pairs of stimuli, both roles.
+func c17HeldSubscriber(x *mc.Cell) {
+	extra := []stim{
+		{"disconnected", func(n *Node, c datatransfer.ChannelID, created bool, k int) {
+			_ = n.H().OnRequestDisconnected(c, errTransfer)
+			mc.Wait()
+		}},
+		{"request-cancelled", func(n *Node, c datatransfer.ChannelID, created bool, k int) {
+			_ = n.H().OnRequestCancelled(c, errTransfer)
+			mc.Wait()
+		}},
+		{"receive-error", func(n *Node, c datatransfer.ChannelID, created bool, k int) {
+			_ = n.H().OnReceiveDataError(c, errTransfer)
+			mc.Wait()
+		}},
+	}
+	all := append(append([]stim(nil), stims...), extra...)
+	for _, role := range []Role{CreatedPush, ReceivedPull} {
+		for ai, a := range all {
+			for bi, b := range all {
+				role, a, b, ai, bi := role, a, b, ai, bi
+				rep := map[string]any{"role": RoleNames[role], "first": a.name, "second": b.name}
+				runOnce := func(hold bool) (string, int, bool) {
+					key, count, ok := "", 0, true
+					run(x, "C17", Opts{Types: []string{"T"}}, rep, func(n *Node) {
+						chid := Setup(n, role, "ongoing")
+						sub := &subLog{}
+						gate := make(chan struct{})
+						armed, held := false, false
+						n.Mgr.SubscribeToEvents(func(e datatransfer.Event, st datatransfer.ChannelState) {
+							sub.cb(e, st)
+							if hold && armed && !held {
+								held = true
+								<-gate // busy with this notification until released
+							}
+						})
+						mc.Wait()
+						armed = true
+						// a first event parks the subscriber, then the two stimuli under test are applied
+						_ = n.H().OnDataSent(chid, Root(), 1, 7, true)
+						_, _ = n.H().OnDataQueued(chid, Root(), 1, 7, true)
+						_ = n.H().OnDataReceived(chid, Root(), 1, 7, true)
+						mc.Wait()
+						a.do(n, chid, role.Created(), 0)
+						b.do(n, chid, role.Created(), 1)
+						mc.Wait()
+						if hold {
+							if !held {
+								ok = false // no notification arrived to hold on (nothing to compare)
+							}
+							close(gate)
+							mc.Wait()
+						}
+						var own []Ev
+						for _, e := range sub.snapshot() {
+							if e.Chid == chid {
+								own = append(own, e)
+							}
+						}
+						key, count = seqKey(own), len(own)
+					})
+					return key, count, ok
+				}
+				x.Executions-- // run() counts each of the two runs; one comparison = one execution
+				ref, nref, _ := runOnce(false)
+				got, ngot, held := runOnce(true)
+				if !held {
+					continue
+				}
+				x.Premise++
+				x.Outcome(fmt.Sprintf("%s|%d|%d|%d", RoleNames[role], ai, bi, nref))
+				if ref != got {
+					x.Violate("C17", fmt.Sprintf("held-subscriber;stream-differs;first=%s;second=%s;role=%s", a.name, b.name, RoleNames[role]),
+						fmt.Sprintf("a subscriber that was busy while %s and %s were applied received %d notifications that differ from the %d it receives when it keeps up:\n fast: %s\n slow: %s", a.name, b.name, ngot, nref, ref, got), rep)
+				}
+			}
+		}
+	}
+}
+
+func init() {
+	mc.Register("C17", "slow-subscriber-differential", "both", c17HeldSubscriber)
+}
